@@ -135,7 +135,10 @@ type c06World struct {
 	device map[string]*x509.Certificate // key: fmt.Sprint(bits/keytype, "/", chain)
 }
 
-var c06W *c06World
+var (
+	c06W      *c06World
+	c06Shared *yubiattest.Attestor
+)
 
 func c06Build() *c06World {
 	now := time.Now()
@@ -190,7 +193,11 @@ func c06Run(c *ev.Ctx, k c06Case) {
 	}
 	sig, _ := hex.DecodeString(k.Sig)
 	slot := &x509.Certificate{SignatureAlgorithm: x509.SignatureAlgorithm(k.Label), RawTBSCertificate: tbs, Signature: sig}
-	att := yubiattest.NewAttestorWithCAPool(c06W.pool)
+	// half of the cases share one long-lived Attestor (state kept between attestations would show), half build their own
+	att := c06Shared
+	if att == nil || len(k.Sig) == 0 || k.Sig[len(k.Sig)-1]%2 == 0 {
+		att = yubiattest.NewAttestorWithCAPool(c06W.pool)
+	}
 	var err error
 	if p := ev.Guard(func() { err = att.Attest(dev, slot) }); p != "" {
 		c.Violation("C06:panic:"+ev.PanicSite(p), p, k)
@@ -284,6 +291,7 @@ func checkC06(c *ev.Ctx) {
 	c.Assume("crypto/x509 chain building is trusted", "modular exponentiation by math/big")
 	t0 := time.Now()
 	c06W = c06Build()
+	c06Shared = yubiattest.NewAttestorWithCAPool(c06W.pool)
 	c.Set("world_build_s", time.Since(t0).Seconds())
 	if c.ReplayCase != nil {
 		var k c06Case
